@@ -62,7 +62,7 @@ PLAN["C20"] = {
     "parts": [{"engine": "enginesim", "quick": 500000, "thorough": 30000000}],
     "nontrivial": ">=2 Interests were pending simultaneously and >=2 kinds of result (Data, Nack, timeout) occurred",
     "fault_note": "the scenario decides every interleaving of Express, Data/Nack arrival, 'fire the k-th due timer' and clock advance (on the dummy and production timers every due timer fires on each advance); network faults = Data that never comes (timeout), late Data after the deadline, duplicated Data, Nacks for names with and without a pending Interest; the face recycles its receive buffer after each callback",
-    "components": {"real": ["std/engine/basic Engine (Express, onPacket, onData, onNack, timeout closures, handlers, Reply)", "std/engine/basic NameTrie", "std/ndn/spec_2022 codec", "std/engine/dummy Timer and DummyFace (30% of runs: the engine runs on the repository's own virtual-clock timer and dummy face)", "std/engine/basic Timer (2% of runs: production timer on a synctest bubble clock, timeouts on timer goroutines)"], "stub": ["face (SimFace implementing std/engine/face.Face; 70% of runs)", "timer (SimTimer implementing ndn.Timer: event heap, scenario-chosen firing order; 68% of runs)"]},
+    "components": {"real": ["std/engine/basic Engine (Express, onPacket, onData, onNack, timeout closures, handlers, Reply)", "std/engine/basic NameTrie", "std/ndn/spec_2022 codec", "std/engine/dummy Timer and DummyFace (30% of runs: the engine runs on the repository's own virtual-clock timer and dummy face)", "std/engine/basic Timer (2% of runs: production timer on a synctest bubble clock, timeouts on timer goroutines)"], "stub": ["face (SimFace implementing std/engine/face.Face; 70% of runs)", "timer (SimTimer implementing ndn.Timer: event heap, scenario-chosen firing order; 67% of runs; 30% of those scenarios contain race steps: 2-3 engine calls as concurrent tasks under a cooperative scheduler)"]},
     "assumptions": ["Express is not called re-entrantly from inside a result callback (the engine holds its PIT lock there)", "a Nack is allowed, not required, to resolve the Interests of its name"],
 }
 PLAN["C11"] = {
